@@ -65,6 +65,22 @@ fn main() {
             std::process::exit(r.finish());
         }
         "serve" => verif_harness::oracle_srv::serve(),
+        "fuzzcase" => {
+            if args.len() < 5 {
+                usage();
+            }
+            let data = std::fs::read(&args[3]).expect("read artifact");
+            match verif_harness::fuzzglue::artifact_to_replay(&args[2], &data) {
+                Some(j) => {
+                    std::fs::write(&args[4], serde_json::to_string_pretty(&j).unwrap()).expect("write replay");
+                    println!("{}", args[4]);
+                }
+                None => {
+                    eprintln!("artifact is outside the target's input domain or decoding panicked");
+                    std::process::exit(2);
+                }
+            }
+        }
         _ => usage(),
     }
 }
